@@ -1115,6 +1115,7 @@ class Engine:
             a = args[0]; bits = ins.rty.bits
             if is_sym(a): return z3.simplify(z3.If(a < 0, -a, a))
             return ((1 << bits) - a) & ((1 << bits) - 1) if a >> (bits - 1) else a
+        if nm.startswith('llvm.va_start') or nm.startswith('llvm.va_end') or nm.startswith('llvm.va_copy'): return None     # variadic arguments are not modelled: consumers are harness-level seams that ignore them
         if nm.startswith('llvm.stacksave'): return 0
         if nm.startswith('llvm.trap'): raise Violation('trap')
         raise Unsupported('intrinsic ' + nm)
